@@ -5,6 +5,7 @@ One record per case with the abstract input (id sets, key assignments, predicate
 implementation exposes: ids, per-id field values or exception classes, which user functions ran, hash equalities.
 """
 import argparse
+import collections
 import hashlib
 import os
 import random
@@ -186,10 +187,17 @@ def case_join(rnd):
     lids, lkeys = side('L', rnd.randint(0, 4))
     rids, rkeys = side('R', rnd.randint(0, 4))
     on = ['key'] + (['key2'] if nkeys == 2 else [])
-    sympool.TABLE['t010'] = lambda i: lkeys[i][0]
-    sympool.TABLE['t011'] = lambda i: rkeys[i][0]
-    sympool.TABLE['t012'] = lambda i: lkeys[i][1]
-    sympool.TABLE['t013'] = lambda i: rkeys[i][1]
+    counts = collections.Counter()
+
+    def counted(name, fn):
+        def f(i):
+            counts[(name, i)] += 1
+            return fn(i)
+        return f
+    sympool.TABLE['t010'] = counted('t010', lambda i: lkeys[i][0])
+    sympool.TABLE['t011'] = counted('t011', lambda i: rkeys[i][0])
+    sympool.TABLE['t012'] = counted('t012', lambda i: lkeys[i][1])
+    sympool.TABLE['t013'] = counted('t013', lambda i: rkeys[i][1])
 
     def mk(ids, ks, vsym, vname):
         items = [('ids', meta(Function(P._const_ids(tuple(ids))))), ('key', Function(sympool.t010 if ks == 0 else sympool.t011, 'i'))]
@@ -213,6 +221,13 @@ def case_join(rnd):
             row[f] = {k: v for k, v in call(getattr(j, f), i).items()}
         rows.append(row)
     rec['rows'] = rows
+    # the key mapping is computed once per pipeline object: ids again, every value field again
+    before = dict(counts)
+    list(j.ids)
+    for i in rec['ids'][:3]:
+        for f in ['lval', 'rval']:
+            call(getattr(j, f), i)
+    rec['mapping_recomputed'] = sorted(f'{k[0]}({k[1]!r}) x{v}' for k, v in counts.items() if v - before.get(k, 0) > 0)[:6]
     return rec
 
 
@@ -229,8 +244,15 @@ def case_group(rnd):
     mode = rnd.choice(['name', 'names', 'callable'])
     g1 = {i: rnd.choice(['x', 'y', 'z']) for i in ALL}
     g2 = {i: rnd.choice(['p', 'q']) for i in ALL}
-    sympool.TABLE['t020'] = lambda i: g1[i]
-    sympool.TABLE['t021'] = lambda i: g2[i]
+    counts = collections.Counter()
+
+    def counted(name, fn):
+        def f(i):
+            counts[(name, i)] += 1
+            return fn(i)
+        return f
+    sympool.TABLE['t020'] = counted('t020', lambda i: g1[i])
+    sympool.TABLE['t021'] = counted('t021', lambda i: g2[i])
     src = SourceBase([('ids', meta(Function(P._const_ids(tuple(ids))))), ('g1', Function(sympool.t020, 'i')), ('g2', Function(sympool.t021, 'i')),
                       ('image', Function(sympool.s030, 'i'))])
     rec = {'kind': 'group', 'ids': ids, 'mode': mode, 'g1': g1, 'g2': g2}
@@ -251,6 +273,11 @@ def case_group(rnd):
     for k in rec['new_ids'] + ['zz']:
         rows.append({'key': k, 'image': call(layer.image, k)})
     rec['rows'] = rows
+    before = dict(counts)
+    list(layer.ids)
+    for k in rec['new_ids'][:3]:
+        call(layer.image, k)
+    rec['mapping_recomputed'] = sorted(f'{k[0]}({k[1]!r}) x{v}' for k, v in counts.items() if v - before.get(k, 0) > 0)[:6]
     if mode == 'names':
         from connectome.layers.group import to_key
         rec['expected_keys'] = {i: to_key(g1[i], g2[i]) for i in ids}
@@ -263,7 +290,12 @@ def case_split(rnd):
     ids = sorted(rnd.sample(ALL, rnd.randint(1, 5)))
     collide = rnd.random() < 0.2
     parts = {i: [(f'{i}-{j}' if not (collide and j == 0 and i == ids[-1] and len(ids) > 1) else f'{ids[0]}-0', f'part{j}') for j in range(rnd.randint(0, 3))] for i in ALL}
-    sympool.TABLE['t030'] = lambda id: parts[id]
+    counts = collections.Counter()
+
+    def split_fn(id):
+        counts[('__split__', id)] += 1
+        return parts[id]
+    sympool.TABLE['t030'] = split_fn
 
     class Sp(Split):
         def __split__(id):
@@ -283,6 +315,12 @@ def case_split(rnd):
     for k in rec['new_ids'] + ['zz']:
         rows.append({'key': k, 'image': call(layer.image, k)})
     rec['rows'] = rows
+    before = dict(counts)
+    list(layer.ids)
+    list(layer.ids)
+    for k in rec['new_ids'][:3]:
+        call(layer.image, k)
+    rec['mapping_recomputed'] = sorted(f'{k[0]}({k[1]!r}) x{v}' for k, v in counts.items() if v - before.get(k, 0) > 0)[:6]
     return rec
 
 
